@@ -16,9 +16,15 @@
       modes have an empty stack, stack_ok of MachineDFS.v), futures are numbered 0 .. top_next-1, so the stack
       is never longer than the number of futures created so far ([tree_stack_bound]).  Hence the guard
       cannot fire while at most MAX_TASK_STACK_SIZE futures exist
-      ([tree_guard_silent_while_few_futures]): for such runs [no_unwind] is a theorem, not a hypothesis. *)
+      ([tree_guard_silent_while_few_futures]): for such runs [no_unwind] is a theorem, not a hypothesis.
+   3. point 1 also for [stree] programs (tree + synchronous calls of fresh tasks, MachineC01S.v, invariant
+      CI): [stree_step_not_already], [stree_unwind_is_guard], [stree_no_unwind_iff_guard_silent],
+      [async_eq_seq_stree_unless_guard].  There the RuntimeError can be caught by the caller of a
+      synchronous call; the invariant says nothing after the first unwinding, so "the guard fired at some
+      earlier step" is the alternative.  No stack bound is proved for stree programs (a nested scheduler
+      loop pushes its root on the same stack; the stack-shape invariant of MachineDFSS.v is not used here). *)
 From Asynq Require Import Machine Seq proofs.ProgProofs proofs.MachineFrame proofs.MachineC05 proofs.MachineC08
-     proofs.MachineC08U proofs.MachineC01 proofs.MachineDFS proofs.MachineC04.
+     proofs.MachineC08U proofs.MachineC01 proofs.MachineDFS proofs.MachineC04 proofs.MachineC01S.
 
 (* ------------------------------------------------------------------ the guard, as a test on configurations *)
 (* the condition, and the order of the tests, of the MExecLoop case of Machine.step *)
@@ -351,6 +357,140 @@ Section Tree.
   Qed.
 End Tree.
 
+(* ------------------------------------------------------------------ tree programs with synchronous calls *)
+Section StepS.
+  Variable P : params.
+  Hypothesis HP : pointwise P.
+  Variable res : outcome.
+
+  Lemma stree_step_not_already spec c :
+    CI res spec c -> is_unwind (c_mode c) = false -> c_mode (step P c) <> MUnwind E_ALREADY.
+  Proof.
+    intros HI Hu Hm.
+    destruct (unwind_sources P c _ Hu Hm) as [(E & _)|(_ & t & [Hmode|(p & Hmode)])].
+    - exact (E_ALREADY_not_RUNTIME E).
+    - (* MResume *)
+      destruct c as [m fr s]. cbn [c_mode] in Hmode. subst m.
+      destruct HI as (Hf & HS & (tk & Hg & Hcomp)). cbn [c_mode c_frames c_st] in Hf, HS, Hg, Hcomp.
+      destruct Hf as (old & i & r & vs & -> & Hrt & Hlv). cbn [R_of fvals] in HS.
+      assert (HtR : ~ In t (fvals vs)).
+      { intros Hin. pose proof (wt_ok_fvals res _ _ _ _ (proj2 Hlv) t Hin). lia. }
+      destruct (SI_entry _ _ _ _ _ HS Hg) as (_ & ot & Hst & _ & Hp & Hd & Hk). cbn in Hp, Hd, Hk.
+      destruct (Hk eq_refl HtR) as (k & K1 & _).
+      revert Hm. cbn [step c_mode c_frames c_st]. unfold get_task. rewrite Hg. rewrite K1.
+      intros Hm. discriminate Hm.
+    - (* MRun *)
+      destruct c as [m fr s]. cbn [c_mode] in Hmode. subst m.
+      destruct HI as (Hf & HS & Hmo). cbn [c_mode c_frames c_st] in Hf, HS, Hmo.
+      destruct Hf as (old & i & r & vs & -> & Hrt & Hlv). cbn [R_of fvals] in HS.
+      assert (HtR : ~ In t (fvals vs)).
+      { intros Hin. pose proof (wt_ok_fvals res _ _ _ _ (proj2 Hlv) t Hin). lia. }
+      destruct (SI_utask _ _ _ t HS (or_introl eq_refl)) as (tk & Hg).
+      assert (Hfr : frames_okS res spec (tasks s) MContRet (FCont t old :: FExec i :: FWait r :: vs)).
+      { exists t, old, i, r, vs. split; [reflexivity|]. split; [exact Hrt|exact Hlv]. }
+      revert Hm. cbn [step c_mode c_frames c_st].
+      destruct Hmo as [(Htree & Hst)|(h & k & oh & -> & _)]; [|intros Hm; discriminate Hm].
+      unfold get_task. rewrite Hg.
+      inversion Htree as [v Ev|v Ev|e Ev|y k Hl Hk Ev|cx k Hc Hk Ev|cx k Hc Hk Ev|q k Hq Hk Ev]; subst p.
+      + destruct (finish_taskS res spec t s tk (Ok v) _ (fvals vs) HS HtR Hg Hst Hfr eq_refl) as (Hnc & _).
+        cbn zeta in Hnc. rewrite Hnc. intros Hm. discriminate Hm.
+      + destruct (finish_taskS res spec t s tk (Ok v) _ (fvals vs) HS HtR Hg Hst Hfr eq_refl) as (Hnc & _).
+        cbn zeta in Hnc. rewrite Hnc. intros Hm. discriminate Hm.
+      + intros Hm. discriminate Hm.
+      + destruct (inst t y s) as [y' s1].
+        destruct (get t s1) as [[o1 [tk1|kd ix ky a|o'|]]|]; try (intros Hm; discriminate Hm).
+        destruct (futs (extract y')); intros Hm; discriminate Hm.
+      + intros Hm. discriminate Hm.
+      + intros Hm. discriminate Hm.
+      + destruct (create t (FTask q) s) as [h0 s0]. intros Hm. discriminate Hm.
+  Qed.
+
+  Lemma ci_prefix n : forall spec c0,
+    CI res spec c0 -> quiet P n c0 -> exists spec', CI res spec' (run P n c0).
+  Proof.
+    induction n as [|n IH]; intros spec c0 HC Hq.
+    - exists spec. exact HC.
+    - destruct (IH spec c0 HC) as (spec1 & H1); [intros k Hk; apply Hq; lia|].
+      rewrite run_succ. apply (s01_step P HP res spec1); [apply Hq; lia|exact H1].
+  Qed.
+
+  Lemma ci_unwind_is_guard spec c0 n e :
+    CI res spec c0 -> is_unwind (c_mode c0) = false -> quiet P n c0 ->
+    c_mode (run P n c0) = MUnwind e ->
+    e = E_RUNTIME /\ exists m, n = S m /\ guard_fires P (run P m c0) = true.
+  Proof.
+    intros HC Hu0 Hq Hm. destruct n as [|m].
+    - cbn [run] in Hm. rewrite Hm in Hu0. discriminate Hu0.
+    - assert (Hqm : quiet P m c0) by (intros k Hk; apply Hq; lia).
+      destruct (ci_prefix m spec c0 HC Hqm) as (spec1 & H1).
+      assert (Hum : is_unwind (c_mode (run P m c0)) = false) by (apply Hq; lia).
+      rewrite run_succ in Hm.
+      destruct (unwind_sources P _ e Hum Hm) as [(-> & _)|(-> & _)].
+      + split; [reflexivity|]. exists m. split; [reflexivity|]. apply step_runtime_guard; assumption.
+      + exfalso. exact (stree_step_not_already spec1 _ H1 Hum Hm).
+  Qed.
+End StepS.
+
+Section STree.
+  Variable P : params.
+  Hypothesis HP : pointwise P.
+  Variable p : prog.
+  Hypothesis Ht : stree p.
+
+  Let h := fst (create [] (FTask p) (st0 P)).
+  Let s1 := snd (create [] (FTask p) (st0 P)).
+
+  Lemma ci_start : exists spec, CI (evals p) spec (start h s1).
+  Proof.
+    pose proof (SI_create (fun _ => None) _ [] (FTask p) (st0 P) (SI_empty P) (sf_task p Ht)) as HC.
+    cbn zeta in HC. fold h s1 in HC. cbn [fexpr_outs] in HC.
+    destruct HC as (_ & HS1 & Hnew & _ & _ & _ & Hent).
+    exists (spec_add (fun _ => None) h (evals p)).
+    apply CI_intro; [| |exists None, (fresh_task p); apply Hent; reflexivity|exact I].
+    - exists (evals p). split; [unfold spec_add; rewrite fid_eqb_refl; reflexivity|apply vs_top].
+    - apply (SI_ext _ (fun _ => False)); [|exact HS1]. intros x. split; intros [].
+  Qed.
+
+  (* Milestone 4: also with synchronous calls the first unwinding is the guard's RuntimeError *)
+  Theorem stree_unwind_is_guard n e :
+    (forall k, (k < n)%nat -> is_unwind (c_mode (run P k (start h s1))) = false) ->
+    c_mode (run P n (start h s1)) = MUnwind e ->
+    e = E_RUNTIME /\
+    exists m, n = S m /\ c_mode (run P m (start h s1)) = MExecLoop /\
+              (p_maxstack P < Z.of_nat (length (tasks (c_st (run P m (start h s1))))))%Z /\
+              guard_fires P (run P m (start h s1)) = true.
+  Proof.
+    intros Hq Hm. destruct ci_start as (spec & HC).
+    destruct (ci_unwind_is_guard P HP (evals p) spec (start h s1) n e HC eq_refl Hq Hm) as (-> & m & -> & G).
+    split; [reflexivity|]. exists m. split; [reflexivity|].
+    destruct (guard_fires_inv P _ G) as (A & B). split; [exact A|]. split; [exact B|exact G].
+  Qed.
+
+  Corollary stree_no_unwind_iff_guard_silent n :
+    (forall k, (k < n)%nat -> guard_fires P (run P k (start h s1)) = false) -> no_unwind P n (start h s1).
+  Proof.
+    intros Hg. apply quiet_no_unwind.
+    assert (H : forall m, (m <= S n)%nat -> quiet P m (start h s1)).
+    { induction m as [|m IH]; intros Hm k Hk; [lia|].
+      assert (Hqm : quiet P m (start h s1)) by (apply IH; lia).
+      destruct (Nat.eq_dec k m) as [->|Ne]; [|apply Hqm; lia].
+      destruct (c_mode (run P m (start h s1))) eqn:Em; try reflexivity. exfalso.
+      destruct (stree_unwind_is_guard m e Hqm Em) as (_ & m' & -> & _ & _ & G).
+      rewrite Hg in G; [discriminate G|lia]. }
+    apply H. lia.
+  Qed.
+
+  Theorem async_eq_seq_stree_unless_guard n o :
+    c_mode (run P n (start h s1)) = MDone o ->
+    o = evals p \/ exists k, (k < n)%nat /\ guard_fires P (run P k (start h s1)) = true.
+  Proof.
+    intros Hm. destruct (bounded_search (fun k => guard_fires P (run P k (start h s1))) n) as [Hex|Hall].
+    - right. exact Hex.
+    - left. apply (async_eq_seq_stree P p n o HP Ht); [|exact Hm].
+      apply stree_no_unwind_iff_guard_silent. exact Hall.
+  Qed.
+End STree.
+
 (* ------------------------------------------------------------------ non-vacuity *)
 Definition guard_silent_b (P : params) (n : nat) (c : cfg) : bool :=
   forallb (fun k => negb (guard_fires P (run P k c))) (seq 0 n).
@@ -375,4 +515,13 @@ Example nounwind_demo_guard :
   let s1 := snd (create [] (FTask c01_demo) (st0 P)) in
   guard_silent_b P 300 (start h s1) = false /\
   c_mode (run P 300 (start h s1)) = MDone (Err E_RUNTIME).
+Proof. vm_compute. repeat split. Qed.
+
+(* the demo of MachineC01S.v (nested synchronous calls): the guard is silent *)
+Example nounwind_demo_stree :
+  let P := mkP [] 1000 false [] in
+  let h := fst (create [] (FTask c01s_demo) (st0 P)) in
+  let s1 := snd (create [] (FTask c01s_demo) (st0 P)) in
+  guard_silent_b P 60 (start h s1) = true /\
+  c_mode (run P 60 (start h s1)) = MDone (Ok (VTuple [VTuple [VTuple [VInt 7; VInt 3]; VInt 1]; VInt 5])).
 Proof. vm_compute. repeat split. Qed.
